@@ -25,6 +25,18 @@ def run(ctx):
         vecs = [json.loads(s) for s in cmds.scenarios]
         scenarios += [cmdlib.wrap_vector(v, tracer=True) for v in vecs]
         counts["command_vectors"] = len(vecs)
+        # every command composed from other commands x every odd thing a handler may hand back to the inner command (nothing, an
+        # error, a value of the wrong type, ...): whatever happens inside, the spans of the request are closed inside out
+        odd = ["k:nil", "k:err", "k:both", "k:null", "k:int", "k:status", "k:arr", "k:nested", "k:emptyerr", "k:binary"]
+        inner = [("STRLEN", []), ("SUBSTR", [tok("int", n=0), tok("int", n=1)]), ("GETRANGE", [tok("int", n=0), tok("int", n=1)]),
+                 ("HEXISTS", [tok("key", "f1")]), ("HSTRLEN", [tok("key", "f1")]), ("HKEYS", []), ("HVALS", []), ("HLEN", []),
+                 ("INCR", []), ("DECRBY", [tok("int", n=2)]), ("APPEND", [tok("str", "v1")]), ("HMGET", [tok("key", "f1"), tok("key", "f2")]),
+                 ("SCARD", []), ("SISMEMBER", [tok("key", "m1")]), ("ZCARD", []), ("ZREVRANGE", [tok("int", n=0), tok("int", n=-1)])]
+        for name, rest in inner:
+            for k in odd:
+                scenarios.append(cmdlib.wrap_vector({"st": "c20", "name": name, "args": [tok("key", k)] + rest}, tracer=True))
+        scenarios.append(cmdlib.wrap_vector({"st": "c20", "name": "MGET", "args": [tok("key", k) for k in odd]}, tracer=True))
+        counts["composed_x_odd_results"] = len(inner) * len(odd) + 1
         cuts = 0
         for name, args in COMPOSED:                                    # end of stream at every offset, with and without a password
             for rp in ("", "pw:exact"):
